@@ -21,8 +21,10 @@ LEVEL_TEXT = (
     "included (padding appended exactly then); non-gate instructions appear once, in order, patched only in "
     "their target; the borrowed-electron register of a carbon-carbon gate is not read before being re-set "
     "(QStatic programs); step-for-step simulation of the vanilla program by the serialised NV program for "
-    "QStatic programs given the C07 gate hypothesis (transpile_simulates_partial; the unrestricted statement "
-    "is false: F10, proved counter-examples). Tie: expansion templates, class facts and padding regenerated "
+    "QStatic programs given the C07 gate hypothesis (transpile_simulates_partial, and "
+    "transpile_simulates_final_partial for terminating runs: same memory and non-Q registers modulo the padding "
+    "register C15 when the padding was appended; the unrestricted statement is false: F10, proved "
+    "counter-examples). Tie: expansion templates, class facts and padding regenerated "
     "from the live code; syntactic correspondence (equal instruction lists / same exception class) between "
     "the compiled model and the real pass on structured programs, instruction soup and real-SDK output; "
     "model-free state-vector oracle on the real Executor.")
@@ -191,7 +193,7 @@ def run(ctx):
         syntactic("corpus", w_stale, dbg, False)
 
     # ---- structured programs: syntactic + oracle
-    n_struct = 1500 if T else 260
+    n_struct = 12000 if T else 1500
     for k in range(n_struct):
         nq = rng.choice([1, 2, 2, 3, 3, 4, 5])
         loads = rng.random() < 0.25
@@ -205,7 +207,7 @@ def run(ctx):
     flush_syntactic()
 
     # ---- instruction soup (malformed stream included): syntactic only
-    n_soup = 6000 if T else 900
+    n_soup = 40000 if T else 5000
     for k in range(n_soup):
         js = H.soup(rng, rng.choice([1, 2, 3, 5, 8, 13]))
         syntactic("soup", js, rng.random() < 0.5, rng.random() < 0.3)
@@ -214,11 +216,11 @@ def run(ctx):
     flush_syntactic()
 
     # ---- programs produced by the real SDK on a recording connection
-    n_sdk = 400 if T else 60
+    n_sdk = 2500 if T else 300
     for k in range(n_sdk):
         nq = 5  # the SDK's default NV hardware config: ids 0..4 (it relocates the electron on demand)
         try:
-            log, feats, rejected = H.sdk_program(rng, rng.choice([2, 3, 3]))
+            log, feats, rejected = H.sdk_program(rng, rng.choice([2, 3, 3]), no_st=notes["F8"])
         except Exception as e:  # harness trouble must not look like a violation
             res.count("sdk-harness-exception:" + type(e).__name__)
             continue
@@ -236,6 +238,9 @@ def run(ctx):
                                      "input": {"program": [before], "text": H.show(before)}})
         script = [rng.randrange(2) for _ in range(6)]
         st = H.random_state(rng, nq)
+        if notes["F9"] and any(j["c"] == "vanilla.MovInstruction" for sb in subs for j in sb):
+            res.count("oracle-skip:sdk-mov-under-F9")  # TEMPORARY, see the note printed above
+            continue
         r = H.oracle_compare(subs, nq, script, st)
         res.count("oracle:sdk")
         if r == "skip":
